@@ -713,7 +713,7 @@ func (c *Candidates) IsDelegatorStakeAllowed(address types.Address, pubkey types
 
 	newTotalStakes := big.NewInt(0).Add(c.totalStakes, diff)
 
-	if big.NewInt(0).Div(newTotalStakes, newTotalStake).Cmp(big.NewInt(5)) == -1 {
+	if newTotalStake.Sign() == 1 && big.NewInt(0).Div(newTotalStakes, newTotalStake).Cmp(big.NewInt(5)) == -1 {
 		return false, true
 	}
 
